@@ -179,6 +179,14 @@ func c14Worker(c *Ctx, job int) JobResult {
 	if c.Thorough() {
 		bound = 3
 	}
+	if mb := j.sc.MaxBound; mb > 0 {
+		if c.Thorough() {
+			mb++
+		}
+		if mb < bound {
+			bound = mb
+		}
+	}
 	nthreads := len(j.sc.Threads)
 	unbounded := c.Thorough() && nthreads == 2 && len(j.sc.Threads[0])+len(j.sc.Threads[1]) <= 2
 	outcomes := map[string]bool{}
